@@ -13,6 +13,7 @@ import (
 	"context"
 	"fmt"
 	"math/rand/v2"
+	"os"
 	"strings"
 	"sync"
 
@@ -23,11 +24,16 @@ import (
 	"sigs.k8s.io/controller-runtime/pkg/client"
 	"sigs.k8s.io/controller-runtime/pkg/reconcile"
 
+	xpcontroller "github.com/crossplane/crossplane-runtime/pkg/controller"
+	"github.com/crossplane/crossplane-runtime/pkg/logging"
+
 	pkgv1 "github.com/crossplane/crossplane/apis/pkg/v1"
 	"github.com/crossplane/crossplane/internal/controller/apiextensions/definition"
 	"github.com/crossplane/crossplane/internal/controller/apiextensions/offered"
+	usagectrl "github.com/crossplane/crossplane/internal/controller/apiextensions/usage"
 	"github.com/crossplane/crossplane/internal/controller/pkg/revision"
 	"github.com/crossplane/crossplane/internal/dag"
+	usagehook "github.com/crossplane/crossplane/internal/usage"
 	"github.com/crossplane/crossplane/internal/xfn"
 	"github.com/crossplane/crossplane/verifh/kit"
 	"github.com/crossplane/crossplane/verifh/sim"
@@ -211,16 +217,27 @@ func nop(kind, val string) map[string]any {
 	return map[string]any{"apiVersion": "nop.ex.org/v1", "kind": kind, "spec": map[string]any{"forProvider": map[string]any{"v": val}}}
 }
 
+// capEngine is an engine the XRD controllers can drive and the harness can query for the
+// reconciler a controller was started with.
+type capEngine interface {
+	definition.ControllerEngine
+	Reconciler(name string) reconcile.Reconciler
+}
+
 type env struct {
 	w        *sim.World
-	defEng   *xrk.CapturingEngine
-	offEng   *xrk.CapturingEngine
+	defEng   capEngine
+	offEng   capEngine
 	defR     *definition.Reconciler
 	offR     *offered.Reconciler
 	xrC, clC *sim.Client
 }
 
-func newEnv(seed uint64, ssa bool) *env {
+func newEnv(seed uint64, ssa bool) *env { return newEnvWith(seed, ssa, false) }
+
+// newEnvWith builds the world; with realEngine the XRD controllers drive the REAL controller
+// engine over fake informers instead of the recording engine.
+func newEnvWith(seed uint64, ssa, realEngine bool) *env {
 	w := sim.NewWorld(xrk.Scheme(), seed)
 	w.MustSeed("user", xrk.XRDObject(xrk.XRDOpts{Group: "ex.org", Kind: "XThing", Plural: "xthings", ClaimKind: "Thing", ClaimPlural: "things"}))
 	w.MustSeed("user", xrk.ResourcesComposition("comp", "ex.org/v1", "XThing", []map[string]any{{"name": "a", "base": nop("NopA", "1"), "readinessChecks": []any{map[string]any{"type": "None"}}}}))
@@ -230,6 +247,10 @@ func newEnv(seed uint64, ssa bool) *env {
 	e := &env{w: w, xrC: w.Client("xr"), clC: w.Client("claim")}
 	e.defEng = xrk.NewCapturingEngine(w, e.xrC)
 	e.offEng = xrk.NewCapturingEngine(w, e.clC)
+	if realEngine {
+		e.defEng = xrk.NewRealEngine(w, e.xrC)
+		e.offEng = xrk.NewRealEngine(w, e.clC)
+	}
 	od := xrk.Options(ssa)
 	od.FunctionRunner = xfn.NewPackagedFunctionRunner(e.xrC)
 	e.defR = definition.NewReconciler(definition.NewClientApplicator(w.Client("definition")), definition.WithControllerEngine(e.defEng), definition.WithOptions(od))
@@ -760,6 +781,255 @@ func runRevisionLock(c *kit.Ctx) {
 	}
 }
 
+// runRealEngine is part C: XRD teardown against the REAL controller engine. While the XRD is
+// being deleted the informer layer fails to remove one or two event handlers once, so the
+// engine's Stop returns an error and the XRD controller retries. The "Stop" marks the monitor
+// sees are ground truth (context cancelled and no handler left on any informer), so a CRD
+// deleted while handlers of its controller are still registered shows up as
+// crd-deleted-before-controller-stopped.
+func runRealEngine(c *kit.Ctx) {
+	n := c.N(24, 400)
+	for i := 0; i < n; i++ {
+		name := fmt.Sprintf("real-engine/%d", i)
+		if !c.Want(name) {
+			continue
+		}
+		r := c.Rng("real-engine", i)
+		ssa := i%2 == 1
+		e := newEnvWith(uint64(c.Seed)*211+uint64(i), ssa, true)
+		w := e.w
+		nClaims := r.IntN(3)
+		for k := 0; k < nClaims; k++ {
+			w.MustSeed("user", xrk.ClaimObject("ex.org/v1", "Thing", "ns1", fmt.Sprintf("c%d", k), map[string]any{"compositionRef": map[string]any{"name": "comp"}}))
+		}
+		if r.IntN(2) == 0 {
+			w.MustSeed("user", xrk.XRObject("ex.org/v1", "XThing", "direct-xr", "comp", nil))
+		}
+		e.settle(4)
+		def, off := e.defEng.(*xrk.RealEngine), e.offEng.(*xrk.RealEngine)
+		m := newMonitor()
+		m.running[ctlComposite] = def.IsRunning(ctlComposite)
+		m.running[ctlClaim] = off.IsRunning(ctlClaim)
+		w.AddHook(m.hook)
+		from := w.LogLen()
+		regs := def.Infs.Registrations() + off.Infs.Registrations()
+		// which engine's teardown fails, and how often
+		fd, fo := 0, 0
+		switch r.IntN(3) {
+		case 0:
+			fd = 1 + r.IntN(2)
+		case 1:
+			fo = 1 + r.IntN(2)
+		default:
+			fd, fo = 1+r.IntN(2), 1+r.IntN(2)
+		}
+		def.Infs.FailRemovals(fd)
+		off.Infs.FailRemovals(fo)
+		u := w.Client("user")
+		xrdObj := &unstructured.Unstructured{Object: w.GetObj(xrdKey)}
+		if err := u.Delete(ctx, xrdObj); err != nil {
+			panic(err)
+		}
+		e.settle(10)
+		if w.GetObj(xrdKey) != nil {
+			m.add("xrd-not-finalized-after-transient-informer-faults", fmt.Sprintf("the deleted XRD still exists after 10 settling rounds (stop errors: definition %d, offered %d)", def.StopErrors, off.StopErrors))
+		}
+		for ctl, en := range map[string]*xrk.RealEngine{ctlComposite: def, ctlClaim: off} {
+			stopped, ok := en.TrulyStopped(ctl)
+			if !ok {
+				c.Inconclusive("a controller's Start was never called by the engine")
+				continue
+			}
+			crd := xrCRD
+			if ctl == ctlClaim {
+				crd = clCRD
+			}
+			if w.GetObj(crd) == nil && !stopped {
+				m.add("crd-gone-but-controller-alive:"+strings.SplitN(ctl, "/", 2)[0], fmt.Sprintf("CRD %s is gone but controller %s still has a live context or %d registered event handlers (engine reports running=%v)", crd.Name, ctl, en.Infs.Live(), en.IsRunning(ctl)))
+			}
+		}
+		c.Eval(fmt.Sprintf("real-engine|ssa=%v|claims=%d|fail=%d/%d", ssa, nClaims, fd, fo), def.StopErrors+off.StopErrors > 0)
+		c.Count("real_engine_cases", 1)
+		c.Count("real_engine_stop_errors", int64(def.StopErrors+off.StopErrors))
+		c.Count("real_engine_handler_registrations", int64(regs))
+		c.Count("invariant_evaluations", int64(m.checks))
+		for k, key := range m.keys {
+			c.Violate(key+":real-engine", name, m.whats[k], map[string]any{"ssa": ssa, "claims": nClaims, "failing_removals": []int{fd, fo}, "order": m.order, "trace": shortTrace(w, from, 100)})
+		}
+	}
+}
+
+// runComposedUsage is part D: a Usage that is itself part of a composition is finalized only
+// after its using resource is gone. The REAL usage reconciler runs against a composed Usage
+// (composite label, spec.by naming a using resource); the user deletes the Usage and the using
+// resource (foreground or background propagation), a provider releases its finalizer on the
+// using resource, a dependent of the using resource lingers, and the Kubernetes garbage
+// collector acts one step at a time - in fixed orders and in seeded random ones. Monitor: the
+// usage controller removes the Usage's finalizer only when the using resource is not in the
+// store any more.
+func runComposedUsage(c *kit.Ctx) {
+	const finUsage = "usage.apiextensions.crossplane.io"
+	usingKey := sim.Key{Group: "nop.ex.org", Kind: "NopA", Name: "using"}
+	usageKey := sim.Key{Group: "apiextensions.crossplane.io", Kind: "Usage", Name: "u1"}
+	fixed := [][]string{
+		{"rec", "rec", "del-using-fg", "del-usage", "rec", "gc", "rec", "gc", "rec"},
+		{"rec", "rec", "del-usage", "rec", "del-using-fg", "gc", "rec", "provider", "rec", "gc", "rec"},
+		{"rec", "rec", "del-using-fg", "gc", "gc", "provider", "rec", "rec", "child", "gc", "gc", "rec"},
+		{"rec", "rec", "del-usage", "del-using-bg", "rec", "provider", "rec", "gc", "rec"},
+		{"rec", "del-usage", "rec", "del-using-fg", "provider", "rec", "gc", "rec"},
+	}
+	pool := []string{"rec", "rec", "rec", "gc", "gc", "del-usage", "del-using-fg", "del-using-bg", "provider", "child"}
+	n := c.N(150, 4000)
+	for i := 0; i < n; i++ {
+		name := fmt.Sprintf("composed-usage/%d", i)
+		if !c.Want(name) {
+			continue
+		}
+		r := c.Rng("composed-usage", i)
+		var steps []string
+		if i < len(fixed)*4 {
+			steps = fixed[i%len(fixed)]
+		} else {
+			steps = []string{"rec", "rec"}
+			for k := 0; k < 6+r.IntN(10); k++ {
+				steps = append(steps, pool[r.IntN(len(pool))])
+			}
+		}
+		// shape: does the provider hold a finalizer on the using resource; does the using resource
+		// have another (blocking) dependent that lingers
+		providerFin, child := (i/len(fixed))%2 == 0, (i/(2*len(fixed)))%2 == 0
+		if i >= len(fixed)*4 {
+			providerFin, child = r.IntN(2) == 0, r.IntN(2) == 0
+		}
+		w := sim.NewWorld(xrk.Scheme(), uint64(c.Seed)*223+uint64(i))
+		using := nop("NopA", "using")
+		using["metadata"] = map[string]any{"name": "using"}
+		if providerFin {
+			using["metadata"].(map[string]any)["finalizers"] = []any{"provider.ex.org/finalizer"}
+		}
+		w.MustSeed("user", using)
+		used := nop("NopB", "used")
+		used["metadata"] = map[string]any{"name": "used"}
+		w.MustSeed("user", used)
+		usingUID := sim.Str(w.GetObj(usingKey), "metadata", "uid")
+		if child {
+			ch := nop("NopB", "child")
+			ch["metadata"] = map[string]any{"name": "child-of-using", "finalizers": []any{"child.ex.org/finalizer"},
+				"ownerReferences": []any{map[string]any{"apiVersion": "nop.ex.org/v1", "kind": "NopA", "name": "using", "uid": usingUID, "blockOwnerDeletion": true}}}
+			w.MustSeed("user", ch)
+		}
+		w.MustSeed("xr", map[string]any{"apiVersion": "apiextensions.crossplane.io/v1beta1", "kind": "Usage",
+			"metadata": map[string]any{"name": "u1", "labels": map[string]any{"crossplane.io/composite": "xr1"}},
+			"spec": map[string]any{"of": map[string]any{"apiVersion": "nop.ex.org/v1", "kind": "NopB", "resourceRef": map[string]any{"name": "used"}},
+				"by": map[string]any{"apiVersion": "nop.ex.org/v1", "kind": "NopA", "resourceRef": map[string]any{"name": "using"}}}})
+		var keys, whats []string
+		checks := 0
+		finalizedWhileUsingTerminating := false
+		w.AddHook(func(v *sim.View, ev *sim.Event) {
+			if ev.Key != usageKey || !ev.Changed || ev.Before == nil || ev.Actor != "usage" {
+				return
+			}
+			checks++
+			if hasFin(ev.Before, finUsage) && (ev.After == nil || !hasFin(ev.After, finUsage)) {
+				if u := v.Get(usingKey); u != nil {
+					fs, _, _ := unstructured.NestedStringSlice(u, "metadata", "finalizers")
+					keys = append(keys, "composed-usage-finalized-while-using-resource-exists")
+					whats = append(whats, fmt.Sprintf("%s: the usage controller removed the finalizer of composed Usage u1 while its using resource still exists (terminating=%v, finalizers=%v)", ev.Short(), sim.Terminating(u), fs))
+				} else {
+					finalizedWhileUsingTerminating = true
+				}
+			}
+		})
+		uc := w.Client("usage")
+		// the field index the usage controller lists by is registered by the webhook's setup
+		if err := usagehook.SetupWebhookWithManager(xrk.NewManager(w, w.Client("webhook")), xpcontroller.Options{Logger: logging.NewNopLogger()}); err != nil {
+			panic(err)
+		}
+		rec := usagectrl.NewReconciler(xrk.NewManager(w, uc), usagectrl.WithLogger(logging.NewNopLogger()))
+		user, prov := w.Client("user"), w.Client("provider")
+		from := w.LogLen()
+		sawWindow := false
+		for _, st := range steps {
+			switch st {
+			case "rec":
+				if u := w.GetObj(usingKey); u != nil && sim.Terminating(u) {
+					if us := w.GetObj(usageKey); us != nil && sim.Terminating(us) {
+						sawWindow = true
+					}
+				}
+				uc.ResetCalls()
+				_ = sim.RunActor(func() { _, _ = rec.Reconcile(ctx, reconcile.Request{NamespacedName: types.NamespacedName{Name: "u1"}}) })
+			case "gc":
+				if p := w.GCPending(); len(p) > 0 {
+					_ = w.GCDo(p[r.IntN(len(p))])
+				}
+			case "del-usage":
+				if o := w.GetObj(usageKey); o != nil {
+					_ = user.Delete(ctx, &unstructured.Unstructured{Object: o})
+				}
+			case "del-using-fg", "del-using-bg":
+				if o := w.GetObj(usingKey); o != nil {
+					pol := metav1.DeletePropagationBackground
+					if st == "del-using-fg" {
+						pol = metav1.DeletePropagationForeground
+					}
+					_ = user.Delete(ctx, &unstructured.Unstructured{Object: o}, client.PropagationPolicy(pol))
+				}
+			case "provider", "child":
+				k, fin := usingKey, "provider.ex.org/finalizer"
+				if st == "child" {
+					k, fin = sim.Key{Group: "nop.ex.org", Kind: "NopB", Name: "child-of-using"}, "child.ex.org/finalizer"
+				}
+				if o := w.GetObj(k); o != nil && sim.Terminating(o) && hasFin(o, fin) {
+					u := &unstructured.Unstructured{Object: o}
+					var keep []string
+					for _, f := range u.GetFinalizers() {
+						if f != fin {
+							keep = append(keep, f)
+						}
+					}
+					u.SetFinalizers(keep)
+					_ = prov.Update(ctx, u)
+				}
+			}
+		}
+		if os.Getenv("DBG") != "" {
+			for _, ev := range w.Log(from) {
+				fmt.Println(ev.Short(), ev.Err)
+			}
+		}
+		c.Eval("composed-usage|"+strings.Join(steps, ",")+fmt.Sprintf("|%v|%v", providerFin, child), sawWindow)
+		c.Count("composed_usage_cases", 1)
+		c.Count("invariant_evaluations", int64(checks))
+		if sawWindow {
+			c.Count("composed_usage_reconciled_while_both_terminating", 1)
+		}
+		if finalizedWhileUsingTerminating {
+			c.Count("composed_usage_finalized_after_using_gone", 1)
+		}
+		for k, key := range keys {
+			if k > 0 {
+				break
+			}
+			c.Violate(key, name, whats[k], map[string]any{"steps": steps, "provider_finalizer": providerFin, "lingering_child": child, "trace": shortTrace(w, from, 80)})
+		}
+	}
+}
+
+func shortTrace(w *sim.World, from, max int) []string {
+	var out []string
+	for _, e := range w.Log(from) {
+		if e.Verb == "get" || e.Verb == "list" {
+			continue
+		}
+		out = append(out, e.Short())
+		if len(out) >= max {
+			break
+		}
+	}
+	return out
+}
+
 func onceAt(call int) func(int, string, sim.Key) sim.Outcome {
 	n := 0
 	return func(_ int, _ string, _ sim.Key) sim.Outcome {
@@ -799,6 +1069,12 @@ func main() {
 	wg.Wait()
 	c.Count("distinct_schedules", int64(len(schedules)))
 	runPreempt(c)
+	if err := kit.Try(func() { runRealEngine(c) }); err != nil {
+		c.Violate("panic:real-engine", "real-engine", err.Error(), nil)
+	}
+	if err := kit.Try(func() { runComposedUsage(c) }); err != nil {
+		c.Violate("panic:composed-usage", "composed-usage", err.Error(), nil)
+	}
 	if err := kit.Try(func() { runRevisionLock(c) }); err != nil {
 		c.Violate("panic:revision-lock", "revlock", err.Error(), nil)
 	}
